@@ -70,6 +70,12 @@ def _expand(fn: ast.AST, node: ast.AST, depth: int = 0) -> str:
     txt = norm(node)
     if depth > 3:
         return txt
+    if depth == 0:
+        # the same expression with plain once-assigned locals written out (current = self.manifest)
+        from ..core import subst_locals
+        sub = norm(subst_locals(fn, node))
+        if sub != txt:
+            txt = f'{txt} = {sub}'
     extra = []
     for n in ast.walk(node):
         if isinstance(n, ast.Attribute) and isinstance(n.value, ast.Name) and n.value.id == 'self' \
@@ -571,6 +577,89 @@ def r18_7(rep: Report) -> None:
     rep.ok(rid, pkg, 'attribute reads resolve', f'{n_reads} reads of self.<name> in live methods')
 
 
+def r18_8(rep: Report) -> None:
+    """the element tree is walked by duck typing: DashElement's recursive walkers call a fixed set of
+    methods on every object that some `children()` returns (`for child in self.children(): child.m()`).
+    Every class whose instances are put into a list that a `children()` method returns must define
+    each of those methods (in its repository class hierarchy); otherwise the walk raises AttributeError
+    on any manifest that contains such an element - the validator does not terminate normally."""
+    from ..index import Index
+    rid = 'R18.8'
+    pkg = 'dashlive/mpeg/dash/validator'
+    idx = Index(rep.repo, 'dashlive/mpeg/dash')
+    base = next((c for c in idx.classes.values() if c.rel == f'{pkg}/dash_element.py' and c.name == 'DashElement'), None)
+    if base is None:
+        raise AnalysisError('anchor vanished: validator DashElement')
+    # the protocol: methods called on the loop variable of `for v in self.children()` in DashElement
+    protocol: dict[str, str] = {}
+    for mname, f in base.methods.items():
+        for loop in ast.walk(f.node):
+            if isinstance(loop, (ast.For, ast.comprehension)) and isinstance(loop.target, ast.Name) \
+                    and isinstance(loop.iter, ast.Call) and norm(loop.iter.func) == 'self.children':
+                scope = loop if isinstance(loop, ast.For) else getattr(loop, '_parent', f.node)
+                for c_ in ast.walk(scope):
+                    if isinstance(c_, ast.Call) and isinstance(c_.func, ast.Attribute) \
+                            and isinstance(c_.func.value, ast.Name) and c_.func.value.id == loop.target.id:
+                        protocol.setdefault(c_.func.attr, mname)
+    if len(protocol) < 3:
+        raise AnalysisError(f'DashElement walkers over children(): only {sorted(protocol)} found')
+    by_name: dict[str, list] = {}
+    for c in idx.classes.values():
+        if c.rel.startswith(pkg):
+            by_name.setdefault(c.name, []).append(c)
+    n_sites = 0
+    for q, c in sorted(idx.classes.items()):
+        if not c.rel.startswith(pkg) or 'children' not in c.methods:
+            continue
+        ch = c.methods['children'].node
+        attrs = {n.attr for r in ast.walk(ch) if isinstance(r, ast.Return) and r.value is not None
+                 for n in ast.walk(r.value) if isinstance(n, ast.Attribute) and isinstance(n.value, ast.Name)
+                 and n.value.id == 'self' and isinstance(n.ctx, ast.Load) and not isinstance(getattr(n, '_parent', None), ast.Call)}
+        if not attrs:
+            continue
+        # every constructor call whose result is stored into one of those attributes, in any class of
+        # the hierarchy below and above (the list may be filled by a subclass or a base)
+        family = [k for k in idx.mro(c) if k.rel.startswith(pkg)] + [k for k in idx.subclasses(c) if k.rel.startswith(pkg)]
+        members: dict[str, ast.AST] = {}
+        for k in family:
+            for f in k.methods.values():
+                for n in ast.walk(f.node):
+                    val = None
+                    if isinstance(n, (ast.Assign, ast.AugAssign, ast.AnnAssign)) and getattr(n, 'value', None) is not None:
+                        tg = n.targets[0] if isinstance(n, ast.Assign) else n.target
+                        if isinstance(tg, ast.Attribute) and norm(tg.value) == 'self' and tg.attr in attrs:
+                            val = n.value
+                    elif isinstance(n, ast.Call) and isinstance(n.func, ast.Attribute) \
+                            and n.func.attr in ('append', 'extend', 'insert') \
+                            and isinstance(n.func.value, ast.Attribute) and norm(n.func.value.value) == 'self' \
+                            and n.func.value.attr in attrs and n.args:
+                        val = n.args[-1]
+                    if val is None:
+                        continue
+                    for x in ast.walk(val):
+                        if isinstance(x, ast.Call) and isinstance(x.func, ast.Name) and x.func.id in by_name:
+                            members.setdefault(x.func.id, x)
+        for cname, site in sorted(members.items()):
+            for k in by_name[cname]:
+                n_sites += 1
+                have = set()
+                for a_ in idx.mro(k):
+                    have |= set(a_.methods)
+                external = idx.ext_base_names(k) - {'object', 'ABC', 'Generic'}
+                missing = sorted(m for m in protocol if m not in have)
+                construct = f'{k.rel}::{k.name}'
+                key = f'listed by {c.name}.children()'
+                if missing and not external:
+                    rep.fail(rid, construct, key,
+                             f'{k.name} objects are returned by {c.name}.children() but {k.name} does not define '
+                             f'{missing}: DashElement.{protocol[missing[0]]}() calls it on every child, an AttributeError '
+                             f'on any manifest where a {c.name} element has child elements', site, file=c.rel)
+                else:
+                    rep.ok(rid, construct, key, f'defines {sorted(protocol)}')
+    if n_sites < 6:
+        raise AnalysisError(f'only {n_sites} element classes found behind children() lists')
+
+
 def analyse(rep: Report) -> None:
     rep.explanation = (
         'Detection side of C18 as an inventory: for each corruption kind of the property the '
@@ -585,9 +674,11 @@ def analyse(rep: Report) -> None:
     rep.rule('R18.5', 'errors are cleared only after they were archived in the validation history', floor=1)
     rep.rule('R18.6', 'super() calls in the validator pass arguments the inherited method accepts', floor=10)
     rep.rule('R18.7', 'attributes read from self are defined somewhere in the class hierarchy', floor=1)
+    rep.rule('R18.8', 'every class listed by a children() method defines what the tree walkers call', floor=6)
     r18_1_2(rep)
     r18_3(rep)
     r18_4(rep)
     r18_5(rep)
     r18_6(rep)
     r18_7(rep)
+    r18_8(rep)
